@@ -663,6 +663,25 @@ func evaluatorResultsNotPooled(c *core.Ctx, rule string) {
 			if r7calleeName(x) == "sync.Pool.Get" {
 				return core.InstrPos(x)
 			}
+			// a repo function of the same package that is handed the value may hand it back (normalize helpers)
+			if callee := x.Call.StaticCallee(); callee != nil && callee.Blocks != nil && core.FuncPkg(callee) == core.FuncPkg(x.Parent()) {
+				for _, a := range x.Call.Args {
+					if p := fromPool(a, seen); p.IsValid() {
+						return p
+					}
+				}
+			}
+		case *ssa.UnOp:
+			// a local captured by a closure lives in a cell: look at what is stored into it
+			if al, ok := x.X.(*ssa.Alloc); ok && x.Op == token.MUL {
+				for _, u := range core.Referrers(al) {
+					if st, ok := u.(*ssa.Store); ok && st.Addr == al {
+						if p := fromPool(st.Val, seen); p.IsValid() {
+							return p
+						}
+					}
+				}
+			}
 		case *ssa.TypeAssert:
 			return fromPool(x.X, seen)
 		case *ssa.MakeInterface:
@@ -703,6 +722,272 @@ func evaluatorResultsNotPooled(c *core.Ctx, rule string) {
 		}
 	}
 	c.OK(rule, "results of package transform are not pooled", 0, fmt.Sprintf("%d returned values examined", n))
+}
+
+// ---------------------------------------------------------------- the declared encoding is consumed by the header package only
+
+// encodingReadOnlyByHeader: the input is transcoded to UTF-8 once, by header's WrapEncoding, before any format reader sees it.
+// A reader (or schema validator) that looks at parser_settings.encoding again decides something by the code page of bytes
+// it never sees (seeds C18-16: byte-offset column slicing for single-byte encodings; C18-18: delimiters re-encoded into the
+// declared code page). The json-tagged `encoding` field of header.ParserSettings is read inside package header only.
+func encodingReadOnlyByHeader(c *core.Ctx, rule string) {
+	c.SSA()
+	hp := c.Pkg("header")
+	if hp == nil {
+		c.Unresolved(rule, "package header", "not found")
+		return
+	}
+	var enc *types.Var
+	for _, name := range hp.Types.Scope().Names() {
+		tn, ok := hp.Types.Scope().Lookup(name).(*types.TypeName)
+		if !ok {
+			continue
+		}
+		st, ok := tn.Type().Underlying().(*types.Struct)
+		if !ok {
+			continue
+		}
+		for i := 0; i < st.NumFields(); i++ {
+			tag := st.Tag(i)
+			if strings.Contains(tag, `json:"encoding`) {
+				if enc != nil && enc != st.Field(i) {
+					c.Unresolved(rule, "encoding field", "more than one json-tagged encoding field in package header")
+					return
+				}
+				enc = st.Field(i)
+			}
+		}
+	}
+	if enc == nil {
+		c.Unresolved(rule, "encoding field", "no json-tagged encoding field in package header")
+		return
+	}
+	for _, f := range c.RepoFunctions() {
+		if core.IsCLIOrSample(core.FuncPkg(f)) {
+			continue
+		}
+		for _, b := range f.Blocks {
+			for _, in := range b.Instrs {
+				var fld *types.Var
+				switch x := in.(type) {
+				case *ssa.FieldAddr:
+					fld = core.FieldOfAddr(x)
+					// a store (decoding, test set-up) is not a read
+					onlyStores := len(core.Referrers(x)) > 0
+					for _, u := range core.Referrers(x) {
+						if st, ok := u.(*ssa.Store); !ok || st.Addr != x {
+							onlyStores = false
+						}
+					}
+					if onlyStores {
+						fld = nil
+					}
+				case *ssa.Field:
+					fld = core.FieldOfField(x)
+				}
+				if fld != enc {
+					continue
+				}
+				key := core.FuncKey(f) + " reads the declared encoding"
+				if core.FuncPkg(f) == hp.Types {
+					c.OK(rule, key, core.InstrPos(in), "inside package header")
+				} else {
+					c.Bad(rule, key, core.InstrPos(in), "parser_settings.encoding is read outside package header: the bytes every reader sees are already UTF-8, whatever was declared — a decision taken by the declared code page (offsets, delimiters, widths) applies to bytes that are not there")
+				}
+			}
+		}
+	}
+	c.Floor(rule, 1, "reads of the declared encoding inside package header")
+}
+
+// ---------------------------------------------------------------- zone names are interpreted by the zone database only
+
+// zoneNamesUninterpreted: a zone name given to a date-time function selects the offset rules of that IANA zone. It reaches
+// the zone consumers (times.OverwriteTZ / times.ConvertTZ / caches.GetTimeLocation / time.LoadLocation) exactly as it was
+// passed: the consumer's argument is, through phis, a parameter of the function (followed to the call sites inside the
+// package), an element of a variadic parameter, or a constant — never the result of a call (seed C19-10: an alias table
+// in front of the lookup shadows genuine IANA names) — and the parameters that carry it are used for nothing but that
+// hand-over, a comparison with a constant, and message formatting (seed C19-18: a regexp "shape guard" rejects valid
+// three-level zones).
+func zoneNamesUninterpreted(c *core.Ctx, rule string, pkgs []string) {
+	c.SSA()
+	cg := c.CallGraph()
+	isConsumer := func(ci ssa.CallInstruction) int {
+		switch r7calleeName(ci) {
+		case "times.OverwriteTZ", "times.ConvertTZ":
+			return 1
+		case "caches.GetTimeLocation", "time.LoadLocation":
+			return 0
+		}
+		return -1
+	}
+	marked := map[*ssa.Parameter]bool{}
+	var order []*ssa.Parameter
+	n := 0
+	var back func(v ssa.Value, at ssa.Instruction, seen map[ssa.Value]bool, fk string)
+	back = func(v ssa.Value, at ssa.Instruction, seen map[ssa.Value]bool, fk string) {
+		if seen[v] {
+			return
+		}
+		seen[v] = true
+		switch x := v.(type) {
+		case *ssa.Const:
+		case *ssa.Phi:
+			for _, e := range x.Edges {
+				back(e, at, seen, fk)
+			}
+		case *ssa.Parameter:
+			if !marked[x] {
+				marked[x] = true
+				order = append(order, x)
+			}
+			fn := x.Parent()
+			idx := -1
+			for i, fp := range fn.Params {
+				if fp == x {
+					idx = i
+				}
+			}
+			if node := cg.Nodes[fn]; node != nil && idx >= 0 {
+				for _, e := range node.In {
+					if e.Site == nil || e.Caller == nil || e.Caller.Func == nil || core.FuncPkg(e.Caller.Func) != core.FuncPkg(fn) || e.Site.Common().IsInvoke() {
+						continue
+					}
+					if args := e.Site.Common().Args; idx < len(args) {
+						back(args[idx], e.Site, seen, core.FuncKey(e.Caller.Func))
+					}
+				}
+			}
+		case *ssa.UnOp:
+			if ia, ok := x.X.(*ssa.IndexAddr); ok && x.Op == token.MUL {
+				if _, isParam := ia.X.(*ssa.Parameter); isParam {
+					return // element of a (variadic) parameter
+				}
+			}
+			c.Bad(rule, fk+" zone name is derived", core.InstrPos(at), "the zone name handed to the zone lookup is loaded from memory this rule cannot attribute to a parameter")
+		case *ssa.Call:
+			c.Bad(rule, fk+" zone name is rewritten by "+r7calleeName(x), core.InstrPos(x), "the zone name handed to the zone lookup is the result of a call, not the caller's argument: names the IANA database knows are reinterpreted (aliases, normalisation) and the reading is bound to other offset rules")
+		default:
+			c.Bad(rule, fk+" zone name is derived", core.InstrPos(at), "the zone name handed to the zone lookup is not the caller's argument")
+		}
+	}
+	for _, f := range c.RepoFunctions() {
+		if core.IsCLIOrSample(core.FuncPkg(f)) || !inPkgs(core.FuncPkg(f), pkgs) {
+			continue
+		}
+		for _, ci := range core.Calls(f) {
+			idx := isConsumer(ci)
+			if idx < 0 || idx >= len(ci.Common().Args) {
+				continue
+			}
+			n++
+			c.OK(rule, core.FuncKey(f)+" hands a zone name to "+r7calleeName(ci), core.InstrPos(ci), "consumer found")
+			back(ci.Common().Args[idx], ci, map[ssa.Value]bool{}, core.FuncKey(f))
+		}
+	}
+	// uses of the carrying parameters
+	for i := 0; i < len(order); i++ {
+		p := order[i]
+		fk := core.FuncKey(p.Parent())
+		var check func(v ssa.Value, seen map[ssa.Value]bool)
+		check = func(v ssa.Value, seen map[ssa.Value]bool) {
+			if seen[v] {
+				return
+			}
+			seen[v] = true
+			for _, u := range core.Referrers(v) {
+				switch x := u.(type) {
+				case *ssa.DebugRef, *ssa.MakeInterface:
+				case *ssa.Phi:
+					check(x, seen)
+				case *ssa.BinOp:
+					_, k1 := x.X.(*ssa.Const)
+					_, k2 := x.Y.(*ssa.Const)
+					if (x.Op != token.EQL && x.Op != token.NEQ) || !(k1 || k2) {
+						c.Bad(rule, fk+" interprets zone name "+p.Name(), core.InstrPos(x), "the zone name is compared with something other than a constant")
+					}
+				case ssa.CallInstruction:
+					if isConsumer(x) >= 0 {
+						continue
+					}
+					callee := x.Common().StaticCallee()
+					if callee != nil && callee.Blocks != nil && core.FuncPkg(callee) == core.FuncPkg(p.Parent()) {
+						ok := false
+						for j, a := range x.Common().Args {
+							if a == v && j < len(callee.Params) && marked[callee.Params[j]] {
+								ok = true
+							}
+						}
+						if ok {
+							continue
+						}
+					}
+					c.Bad(rule, fk+" interprets zone name "+p.Name(), core.InstrPos(x), "the zone name is handed to "+r7calleeName(x)+", which is not a zone lookup: whatever it decides (a shape check, an alias, a normalisation) is decided without the IANA database and changes which zones are accepted or which rules apply")
+				default:
+					c.Bad(rule, fk+" interprets zone name "+p.Name(), core.InstrPos(u), "the zone name is used for something other than the hand-over to the zone lookup, a comparison with a constant or message formatting")
+				}
+			}
+		}
+		check(p, map[ssa.Value]bool{})
+		c.OK(rule, fk+" carries zone name "+p.Name(), p.Pos(), "uses examined")
+	}
+	c.Floor(rule, 4, "zone lookups and carrying parameters in the date-time functions")
+	_ = n
+}
+
+// integersParsedBase10: every strconv.ParseInt / ParseUint in the given packages has the constant base 10 (seed C19-16: base
+// 0 reads a zero-padded epoch as octal and accepts 0x… / 1_000 spellings).
+func integersParsedBase10(c *core.Ctx, rule string, pkgs []string) {
+	c.SSA()
+	for _, f := range c.RepoFunctions() {
+		if core.IsCLIOrSample(core.FuncPkg(f)) || !inPkgs(core.FuncPkg(f), pkgs) {
+			continue
+		}
+		for _, ci := range core.Calls(f) {
+			name := r7calleeName(ci)
+			if name != "strconv.ParseInt" && name != "strconv.ParseUint" {
+				continue
+			}
+			args := ci.Common().Args
+			good := false
+			if len(args) == 3 {
+				if k, ok := args[1].(*ssa.Const); ok && k.Value != nil && k.Value.Kind() == constant.Int {
+					if v, exact := constant.Int64Val(k.Value); exact && v == 10 {
+						good = true
+					}
+				}
+			}
+			c.Check(good, rule, core.FuncKey(f)+" parses an integer", core.InstrPos(ci), "base 10", "an integer is parsed with a base other than the constant 10: zero-padded decimal text is read as octal and prefixed / underscored spellings are accepted")
+		}
+	}
+	c.Floor(rule, 1, "integer parses")
+}
+
+func init() {
+	wrapRun("C19", func(c *core.Ctx) {
+		if c.CountRule("R19j") == 0 {
+			integersParsedBase10(c, "R19j", []string{"customfuncs"})
+		}
+		if c.CountRule("R19k") == 0 {
+			zoneNamesUninterpreted(c, "R19k", []string{"customfuncs"})
+		}
+	})
+	addDoc("C19", "R19j integers (epochs) are parsed with the constant base 10. R19k a zone name reaches the zone lookups exactly as passed (parameter, variadic element or constant through phis; never the result of a call) and the parameters carrying it are used only for that hand-over, comparisons with constants and message formatting.")
+	wrapRun("C02", func(c *core.Ctx) {
+		if c.CountRule("R02p") == 0 {
+			integersParsedBase10(c, "R02p", []string{"extensions/omniv21/transform"})
+		}
+	})
+	addDoc("C02", "R02p the int type cast parses with the constant base 10.")
+}
+
+func init() {
+	wrapRun("C18", func(c *core.Ctx) {
+		if c.CountRule("R18h") == 0 {
+			encodingReadOnlyByHeader(c, "R18h")
+		}
+	})
+	addDoc("C18", "R18h the json-tagged encoding field of header.ParserSettings is read inside package header only (every reader sees UTF-8).")
 }
 
 func init() {
